@@ -276,8 +276,21 @@ Definition sent (c : client) (e : event) : client :=
   let c2 := put_dedup c1 (e_id e) PS_CREATED (Some (k_epoch k)) (Some (e_msg e)) in
   set_core c2 (upd_last (kc c2) (e_msg e) (e_msg e)).
 
+(* create_message with a rumor whose id field was pre-set by the caller: the sender files its own copy under that id
+   (`key`); created_at and the wrapper are those of the new message *)
+Definition sent_as (c : client) (e : event) (key : N) : client :=
+  let k := ensure_secret (kc c) in
+  let c1 := set_msgs (set_core c k) (aset N.eqb key (mkM MS_CREATED (k_epoch k) (e_id e) (e_msg e)) (msgs c)) in
+  let c2 := put_dedup c1 (e_id e) PS_CREATED (Some (k_epoch k)) (Some key) in
+  set_core c2 (upd_last (kc c2) (e_msg e) key).
+
 Definition leave_created (c : client) (e : event) : client :=
   let k := ensure_secret (kc c) in
   put_dedup (set_core c (with_props k (k_props k ++ [e_id e]))) (e_id e) PS_COMMIT (Some (k_epoch k)) None.
+
+(* closing the library and reopening the same database (persistent backend): the group's stored state survives; the
+   in-memory snapshot manager is rebuilt lazily from the stored snapshot names, whose commit timestamps are lost (0) *)
+Definition restart (c : client) : client :=
+  set_queue c (map (fun s => mkSnap (sn_epoch s) (sn_key s) 0 (sn_core s)) (queue c)).
 
 Definition deliver (c : client) (e : event) : client * rk := process 2 c e.
